@@ -131,7 +131,7 @@ Meta == {[fam |-> "render", sub |-> "meta", label |-> l, rname |-> rn, ctrl |-> 
 Tmpl == {[fam |-> "render", sub |-> "tmpl", shape |-> s] : s \in {"ok", "two", "none", "undefined", "noname", "nested"}}
 ComposeAll ==
   {[fam |-> "render", sub |-> "compose", n |-> n, kind |-> k, fail |-> f, phase |-> ph] :
-     n \in 2..3, k \in {"required", "transform", "topath", "optional", "namegen"}, f \in 1..3, ph \in {"create", "update"}}
+     n \in 2..3, k \in {"required", "transform", "topath", "optional", "namegen", "namegen-nomatch"}, f \in 1..3, ph \in {"create", "update"}}
 ComposeVectors == {r \in ComposeAll : r.fail <= r.n}
                   \cup {[fam |-> "render", sub |-> "compose", n |-> n, kind |-> k, fail |-> 0, phase |-> ph] : n \in 2..3, k \in {"label", "none"}, ph \in {"create", "update"}}
 RenderVectors == RPatch \cup Meta \cup Tmpl \cup ComposeVectors
